@@ -474,7 +474,7 @@ Proof.
   { intros pre Hpre. unfold establish. pose proof (est_step (a_chans (r_app st))) as H.
     destruct (on_established (a_chans (r_app st))) as [cs' evs]. cbn [fst snd r_app a_chans] in *.
     eapply oc_step_trans; [apply quiet_ctl; exact Hpre|exact H]. }
-  destruct i as [c|t|t hc|valid| |n pairs|sid|].
+  destruct i as [c|t|t hc|valid| |n pairs|sid| |v].
   - apply recv_data_step.
   - destruct (connected st); cbn [fst snd r_app]; [apply oc_step_refl|apply quiet_ctl; reflexivity].
   - destruct (connected st); cbn [fst snd r_app]; [apply oc_step_refl|apply quiet_ctl; destruct hc; reflexivity].
@@ -484,6 +484,8 @@ Proof.
     pose proof (fwd_streams_step pairs (r_app st)) as H. destruct (fwd_streams (r_app st) pairs) as [a1 e1]. exact H.
   - pose proof (close_channel_step (r_app st) sid) as H. destruct (close_channel (r_app st) sid) as [a1 e1]. exact H.
   - pose proof (td_step (a_chans (r_app st))) as H. destruct (teardown (a_chans (r_app st))) as [cs' e1]. exact H.
+  - destruct (handle_reconfig_frame st v) as [(_ & _ & _ & _ & Hc) Hctl]. rewrite Hc.
+    apply quiet_ctl. intros x. apply only_ctl_evs. exact Hctl.
 Qed.
 
 Lemma run_oc h : forall st, oc_step (a_chans (r_app st)) (a_chans (r_app (fst (run st h)))) (snd (run st h)).
